@@ -405,8 +405,8 @@ Fixpoint run (fuel : nat) (g : G) (lx : clexer) (c : ctx) (st : store) {struct f
           let sepp := GRecoverWith VUnit rr (GDiscard (GOne sep)) in
           list_loop rec f hi ab dflt item probe sepp c [] lx st
             (fun vals lx' st' =>
-               match c_rec lx' with
-               | Some _ => (RPanic, st')                 (* debug_assert!(recover_state().is_none()) *)
+               match (match c_rec lx with Some _ => None | None => c_rec lx' end) with
+               | Some _ => (RPanic, st')      (* debug_assert!(had_recover_state || recover_state().is_none()) *)
                | None =>
                  if length vals <? lo then
                    match send_error c (ECount (c_parse_span lx') (length vals) lo hi) (log st') with
